@@ -404,6 +404,13 @@ class MatInterp:
                 for t in (s.targets if isinstance(s, ast.Assign) else [s.target]):
                     self.assign(t, v, env, fn)
                 continue
+            if isinstance(s, ast.AugAssign) and isinstance(s.target, ast.Name) and s.target.id in env:
+                # x op= v on a local: same value as x = x op v (the in-place aspect is the business of other rules)
+                fake = ast.BinOp(left=ast.Name(id=s.target.id, ctx=ast.Load()), op=s.op, right=s.value)
+                ast.copy_location(fake, s)
+                ast.fix_missing_locations(fake)
+                env[s.target.id] = self.ev(fake, env, fn)
+                continue
             if isinstance(s, ast.Return):
                 raise Returned(self.ev(s.value, env, fn) if s.value is not None else Val('none'))
             if isinstance(s, ast.If):
